@@ -569,6 +569,31 @@ func deepHistory(k int, data []gen.DataSpec) *hist.History {
 	return h
 }
 
+// budgetHistories returns histories over a set whose members are analysed at a cost near the
+// analysis budget of the engine: whether a member is within the budget, and whether small
+// members stay analysable, must not depend on what was executed before. (Ranges over a
+// missing key: the analysis is deep, the execution does nothing.)
+func budgetHistories(data []gen.DataSpec) []*hist.History {
+	nest := func(depth int, leaf string) string {
+		return strings.Repeat("{{range $.NOPE}}", depth) + leaf + strings.Repeat("{{end}}", depth)
+	}
+	text := `{{define "b1"}}` + nest(18, "x") + `{{end}}{{define "b2"}}` + nest(18, "y") + `{{end}}` +
+		`{{define "a"}}A{{template "b1" .}}{{template "b2" .}}{{end}}{{define "small"}}<p>{{$.S0}}</p>{{end}}`
+	for i := 1; i <= 5; i++ {
+		text += fmt.Sprintf(`{{define "m%d"}}%d`, i, i) + nest(17, fmt.Sprint(i)) + `{{end}}`
+	}
+	var out []*hist.History
+	for _, order := range [][]string{{"a", "small"}, {"b1", "b2", "a", "a", "small"}, {"b1", "a", "b2"}, {"m1", "m2", "m3", "m4", "m5", "small", "a"}, {"a", "b1", "m1", "m2", "m3", "small"}} {
+		h := &hist.History{Data: data[:1], NVar: 2}
+		h.Ops = []hist.Op{{Kind: "new", H: -1, Dst: 0, Name: "root"}, {Kind: "parse", H: 0, Dst: 0, Text: text}}
+		for _, m := range order {
+			h.Ops = append(h.Ops, hist.Op{Kind: "exect", H: 0, Dst: -1, Name: m, Data: 0})
+		}
+		out = append(out, h)
+	}
+	return out
+}
+
 func run(c *core.Ctx, cf cfg) {
 	r := c.Rng("histories")
 	n := cf.n(c) / c.NShards
@@ -576,6 +601,13 @@ func run(c *core.Ctx, cf cfg) {
 		rp := c.Rng("permutations")
 		for i := 0; i < c.N(1500, 30000)/c.NShards; i++ {
 			permutations(c, cf, rp)
+		}
+		for k, h := range budgetHistories(hist.GenData(c.Rng("budget"), 1)) {
+			if c.Mine(k) {
+				c.Count("histories_near_the_analysis_budget", 1)
+				c.Journal(util.JSON(kase{History: h}))
+				judge(c, cf, h, false)
+			}
 		}
 		rd := c.Rng("derived-names")
 		for i := 0; i < c.N(1500, 30000)/c.NShards; i++ {
